@@ -24,6 +24,9 @@ from bibtexparser import model as M
 from bibtexparser.library import Library
 
 
+EMPTY_MESSAGE = [False]     # the failing converter raises an exception WITHOUT a message (tasks may switch it on)
+
+
 def make_stub(eng, method):
     """deterministic converter: fails exactly on inputs starting with 'y', otherwise returns '<' + input + '>'.
     (Being a function of its input, any caching inside the middleware must be transparent.)"""
@@ -33,7 +36,7 @@ def make_stub(eng, method):
             raise PyRaise(TypeError("converter expects a string"))
         cs = chars(s)
         if len(cs) > 0 and I.truth(W, ch_eq(cs[0], "y")):
-            raise PyRaise(RuntimeError("converter failed"))
+            raise PyRaise(ValueError() if EMPTY_MESSAGE[0] else RuntimeError("converter failed"))
         return mk(("<",) + cs + (">",))
     return Stub("converter", {method: conv})
 
@@ -171,7 +174,7 @@ def native_replay(kind, vals, inplace, shape="main"):
             if not isinstance(s, str):
                 raise TypeError("converter expects a string")
             if s.startswith("y"):
-                raise RuntimeError("converter failed")
+                raise (ValueError() if EMPTY_MESSAGE[0] else RuntimeError("converter failed"))
             return "<" + s + ">"
         unicode_to_latex = _do
         latex_to_text = _do
@@ -192,7 +195,8 @@ def native_replay(kind, vals, inplace, shape="main"):
             "expected": "only text values converted (converter fails on values starting with 'y'), types kept, failures contained"}
 
 
-def task(kind, inplace, shape="main"):
+def task(kind, inplace, shape="main", empty_message=False):
+    EMPTY_MESSAGE[0] = empty_message
     eng = Engine()
     rec = Recorder(eng)
     vals = [eng.sym_str(f"v{i}_", 1, "xy") for i in range(8)]
@@ -395,7 +399,7 @@ def task_ctor_seq():
 def main():
     chk = Check("C18", __doc__)
     chk.bounds = {"library": "String, Preamble, Entry, ExplicitComment, ParsingFailedBlock; every text one symbolic character; three entry shapes: main = (str, int, NameParts(first 1 word, last 2 words), str, list of ints, list of str); names-only = a single NameParts field with 5 strings over all four parts; dup-keys = note/title/note/year(int)/title with repeated field keys",
-                  "converter": "a function of its input: raises on values starting with 'y', else returns '<'+input+'>' (values are symbolic over {x,y}, so all 2^6 failure patterns and all equal-value patterns occur)",
+                  "converter failure": "RuntimeError with a message, and (three extra tasks) ValueError() without any message", "converter": "a function of its input: raises on values starting with 'y', else returns '<'+input+'>' (values are symbolic over {x,y}, so all 2^6 failure patterns and all equal-value patterns occur)",
                   "constructor sequences": "two default-built encoder and decoder middlewares in a row, keep_math / enclose_urls / keep_braced_groups / keep_math_mode each symbolic over {None, True, False}; the pylatexenc classes are recording stubs, the claim is about what bibtexparser hands to them (which rules, which options, no shared state)",
                   "options": "encoder / decoder middleware x allow_inplace_modification in {True, False}; custom converter vs. option conflicts in the constructors"}
     chk.assumptions = ["the pylatexenc conversion itself is a stub: what it returns is arbitrary, so the round-trip clause decode(encode(t)) == t is NOT claimed (not encodable within reach: third-party, table/regex driven)",
@@ -404,6 +408,9 @@ def main():
                  "constructor task: UnicodeToLatexEncoder / UnicodeToLatexConversionRule / LatexNodes2Text / MacroTextSpec / get_default_latex_context_db -> recording classes"]
     chk.expected_vacuity = ["converter-failed", "all-converted", "two-constructions"]
     chk.add_task("ctor-sequence", task_ctor_seq)
+    # a converter that fails with an exception carrying no message (a failure is a failure, whatever str(e) is)
+    for kind, shape in (("enc", "main"), ("dec", "main"), ("enc", "names-only")):
+        chk.add_task(f"{kind}-inplace1-{shape}-emptymsg", task, kind=kind, inplace=True, shape=shape, empty_message=True)
     for kind, inplace, shape in itertools.product(("enc", "dec"), (True, False), sorted(SHAPES)):
         chk.add_task(f"{kind}-inplace{int(inplace)}-{shape}", task, kind=kind, inplace=inplace, shape=shape)
     chk.add_task("constructors", task_ctor)
